@@ -105,7 +105,7 @@ class RightClickSetup(EventMixin):
                 if is_arrow_func:
                     func_contents.append([func])
                 else:
-                    func_contents.append([f"function {self.datapack.namespace}:{func}"])
+                    func_contents.append([func])
 
             main_func.append(
                 f"""execute if score {self.tag_id_var} {DataPack.var_name} matches 1.. run {parse_switch(ScoreboardPlayer(
@@ -123,7 +123,7 @@ class RightClickSetup(EventMixin):
                     )
                 else:
                     run.append(
-                        f"execute if score {self.tag_id_var} {DataPack.var_name} matches {num} at @s run function {self.datapack.namespace}:{func}"
+                        f"execute if score {self.tag_id_var} {DataPack.var_name} matches {num} at @s run {func}"
                     )
 
             self.datapack.add_raw_private_function(self.name, run, main_count)
@@ -528,7 +528,7 @@ class TriggerSetup(JMCFunction):
                 if is_arrow_func:
                     func_contents.append([func])
                 else:
-                    func_contents.append([f"function {self.datapack.namespace}:{func}"])
+                    func_contents.append([func])
             run = [
                 parse_switch(
                     ScoreboardPlayer(PlayerType.SCOREBOARD, (obj, "@s")),
